@@ -760,13 +760,13 @@ func Check(specPath string, opt Options) int {
 	for _, l := range violLines {
 		fmt.Println(l)
 	}
+	for _, b := range broken {
+		fmt.Println("BROKEN:", b)
+	}
 	if newViol > 0 {
 		return 1
 	}
 	if len(broken) > 0 {
-		for _, b := range broken {
-			fmt.Println("BROKEN:", b)
-		}
 		return 2
 	}
 	return 0
